@@ -335,7 +335,7 @@ def file_write(ctx, ref, o, data, node):
 def new_map(ctx, keykind, valkind, name='m', sorted_=False, empty=False, cls=None):
     """keykind: 'bytesN' | 'int' | 'opaque' ; valkind: 'int' | 'bytesN' | 'opaque' | 'ref:<kind>'"""
     ks = Obj if keykind == 'opaque' else I
-    vs = Obj if valkind == 'opaque' else I
+    vs = Obj if valkind == 'opaque' else I     # ('pobj': persistent objects, Int ids)
     if empty:
         dom = z3.K(ks, z3.BoolVal(False))
     else:
@@ -389,6 +389,16 @@ def map_val_in(ctx, o, v, node):
         if not isinstance(v, VBytes) or v.conc_len() != n:
             raise Unsupported('map value must be %d bytes' % n, node)
         return bytes_num(ctx, v, node)
+    if vk == 'pobj':
+        if isinstance(v, VOpaque) and v.tag == 'pobj':
+            return v.t
+        raise Unsupported('map value must be a persistent object, got %r' % (v,), node)
+    if vk == 'bool':
+        if isinstance(v, VBool):
+            return z3.If(v.t, 1, 0) if not isinstance(v.t, bool) else z3.IntVal(int(v.t))
+        if isinstance(v, VInt):
+            return z3.If(v.t != 0, 1, 0)
+        raise Unsupported('map value must be a bool, got %r' % (v,), node)
     if vk == 'opaque':
         if isinstance(v, VOpaque):
             return v.t
@@ -407,6 +417,10 @@ def map_val_out(ctx, o, t):
         # engine invariant: every stored value is the number of an n-byte string
         ctx.assume(z3.And(t >= 0, t < 256 ** n))
         return num_to_bytes(ctx, t, n, 'mv')
+    if vk == 'pobj':
+        return VOpaque(t, 'pobj')
+    if vk == 'bool':
+        return VBool(t != 0)
     if vk == 'opaque':
         h = ctx.hooks.get('from_opaque')
         if h:
@@ -476,6 +490,22 @@ def map_method(ctx, interp, ref, o, name, args, kwargs, node):
         if len(args) > 1:
             return args[1]
         raise RaiseSig(VExc('builtins:KeyError', [args[0]]))
+    if name == 'popitem' and not args:
+        ks = f['dom'].sort().domain()
+        k = z3.Const(fresh_name('popped'), ks)
+        q = z3.Const(fresh_name('q'), ks)
+        some = z3.Bool(fresh_name('nonempty'))
+        ctx.assume(z3.Implies(some, z3.Select(f['dom'], k)))
+        ctx.assume(z3.Implies(z3.Not(some), z3.ForAll([q], z3.Not(z3.Select(f['dom'], q)),
+                                                      patterns=[z3.Select(f['dom'], q)])))
+        if ctx.choose([some, z3.Not(some)], 'map-popitem') == 1:
+            raise RaiseSig(VExc('builtins:KeyError'))
+        kv = map_key_value(ctx, o, k)
+        vv = map_val_out(ctx, o, z3.Select(f['val'], k))
+        f['dom'] = z3.Store(f['dom'], k, z3.BoolVal(False))
+        if 'size' in f:
+            f['size'] = z3.simplify(f['size'] - 1)
+        return VTuple([kv, vv])
     if name in ('minKey', 'maxKey') and o.meta.get('sorted'):
         return sorted_extreme(ctx, o, name == 'minKey', args[0] if args else NONE, node)
     if name in ('items', 'keys', 'values', 'iteritems', 'iterkeys', 'itervalues'):
@@ -1275,6 +1305,8 @@ def slist_elem_out(ctx, o, t):
         return num_to_bytes(ctx, t, n, 'le')
     if ek == 'int':
         return VInt(t)
+    if ek == 'pobj':
+        return VOpaque(t, 'pobj')
     return VOpaque(t, 'le')
 
 
@@ -1314,12 +1346,14 @@ def slist_elem_in(ctx, o, v, node):
         return v.t
     if ek == 'opaque' and isinstance(v, VOpaque):
         return v.t
+    if ek == 'pobj' and isinstance(v, VOpaque) and v.tag == 'pobj':
+        return v.t
     raise Unsupported('list element kind %s for %r' % (ek, v), node)
 
 
 def new_slist(ctx, elemkind, name='l', empty=False, bag=False):
     """bag=True adds the ghost multiset view f['bag'] (element -> number of occurrences), kept by
-    append/pop; `x in l` is then bag[x] > 0"""
+    append/pop; `x in l` is then bag[x] > 0.  elemkind 'pobj': persistent objects (Int ids)"""
     s = Obj if elemkind == 'opaque' else I
     arr = z3.Array(fresh_name(name + '_arr'), I, s)
     if empty:
@@ -1760,6 +1794,12 @@ def c_type(ctx, interp, args, kwargs, node):
     if isinstance(v, (VInt,)):
         return VClass('builtins:int')
     raise Unsupported('type() of %r' % (v,), node)
+
+
+@ctor('builtins:object')
+def c_object(ctx, interp, args, kwargs, node):
+    # object(): a fresh object distinct from every other value (the `marker = object()` idiom)
+    return VOpaque(z3.Const(fresh_name('marker'), Obj), 'marker')
 
 
 @ctor('builtins:bool')
